@@ -8,93 +8,100 @@ import PEval.Gen.KBetter
 IOU3dMatching run on a symbolic `value` (possibly `None`) and a symbolic threshold, over every outcome of the order
 atoms (`lt / eq / gt`, so `<` and `<=` differ exactly on `eq`). The table shows the DIRECTION per class and that
 equality is not better (`table_distance_direction`, `table_iou_direction`, `table_equal_not_better`).
+
+What is pinned and what is open. C08: "a result that is a TP at some matching threshold is still a TP at every looser
+threshold (larger distance, smaller IoU)"; C01: "only pairs objects closer than that radius". Both speak about thresholds
+on the mode's scale; neither says what an IoU class does with a threshold outside [0, 1] (today: an assertion). The
+per-run obligation is therefore stated for the valuations avoiding `forbIoU` (IoU class ∧ (`0 > thr` ∨ `1 < thr`)): on
+them the code's table must equal the skeleton (direction, strictness, `None` value); on the forbidden ones it may raise
+anything or return anything. In-quantifier predicate: `AP.thrValid m t` (`valBetter_consistent`). The distance classes
+are pinned for EVERY threshold.
 -/
 namespace PEval.KernelBetter
 open PEval PEval.DT PEval.MatchKernels
 
 /-- THE per-run obligation -/
-theorem better_table_check : tableOk [] Gen.K.better.tree betterTree = true := by decide +kernel
+theorem better_table_check : tableOk forbIoU Gen.K.better.tree betterTree = true := by decide +kernel
 
-/-- the code's decision table equals the model's skeleton under every valuation of the atoms -/
-theorem better_code_table_eq_model : ∀ t, Gen.K.better.tree = some t → ∀ v : Val, eval t v = betterAtoms v :=
-  fun t ht v => tableOk_sound better_table_check t ht v (consistent_nil v)
+/-- the code's decision table equals the model's skeleton under every valuation of the atoms that does not stand for an
+IoU threshold outside [0, 1] -/
+theorem better_code_table_eq_model : ∀ t, Gen.K.better.tree = some t →
+    ∀ v : Val, consistent forbIoU v = true → eval t v = betterAtoms v :=
+  fun t ht v hv => tableOk_sound better_table_check t ht v hv
 
 /-- the bridge: the metrics model's `isBetterThan` is the skeleton applied to the atoms of the input (all inputs) -/
 theorem better_eq_skeleton (m : AP.Mode) (x : Option Rat) (t : Rat) :
     betterAtoms (valBetter m x t) = ofBool (AP.isBetterThan m x t) := better_bridge m x t
 
-/-- the CODE's table at the atoms of a concrete (value, threshold) gives the model's verdict (Boolean or AssertionError) -/
+/-- the CODE's table at the atoms of a concrete (value, threshold on the mode's scale) gives the model's verdict -/
 theorem better_code_table_eq_isBetterThan :
-    ∀ tr, Gen.K.better.tree = some tr → ∀ (m : AP.Mode) (x : Option Rat) (t : Rat),
+    ∀ tr, Gen.K.better.tree = some tr → ∀ (m : AP.Mode) (x : Option Rat) (t : Rat), AP.thrValid m t = true →
       eval tr (valBetter m x t) = ofBool (AP.isBetterThan m x t) := by
-  intro tr ht m x t
-  rw [better_code_table_eq_model tr ht]; exact better_bridge m x t
+  intro tr ht m x t hv
+  rw [better_code_table_eq_model tr ht _ (valBetter_consistent m x t hv)]; exact better_bridge m x t
 
 /-- the same against the matcher's `isBetterThan` (the radius gate of the score table) -/
 theorem better_code_table_eq_isBetterThan_matcher :
-    ∀ tr, Gen.K.better.tree = some tr → ∀ (m : Matching.Mode) (v t : Rat),
+    ∀ tr, Gen.K.better.tree = some tr → ∀ (m : Matching.Mode) (v t : Rat), AP.thrValid (toAP m) t = true →
       eval tr (valBetter (toAP m) (some v) t) = ofBool (Matching.isBetterThan m v t) := by
-  intro tr ht m v t
-  rw [better_code_table_eq_model tr ht]; exact better_bridge_M m v t
+  intro tr ht m v t hv
+  rw [better_code_table_eq_model tr ht _ (valBetter_consistent _ _ t hv)]; exact better_bridge_M m v t
 
-/-- for the code's table: the distance classes are smaller-is-better, strictly -/
+/-- for the code's table: the distance classes are smaller-is-better, strictly (every threshold) -/
 theorem table_distance_direction {tr : DTree} (ht : Gen.K.better.tree = some tr) (m : AP.Mode)
     (hm : m.isDistance = true) (x t : Rat) : eval tr (valBetter m (some x) t) = .ret (decide (x < t)) := by
-  rw [better_code_table_eq_isBetterThan tr ht]
+  rw [better_code_table_eq_isBetterThan tr ht m _ t (by simp [AP.thrValid, hm])]
   simp [AP.isBetterThan, AP.thrValid, AP.isBetter, hm, ofBool]
 
-/-- for the code's table: the IoU classes are larger-is-better, strictly, for thresholds in [0, 1]; otherwise they raise -/
+/-- for the code's table: the IoU classes are larger-is-better, strictly, for thresholds in [0, 1] (outside: open) -/
 theorem table_iou_direction {tr : DTree} (ht : Gen.K.better.tree = some tr) (m : AP.Mode)
-    (hm : m.isDistance = false) (x t : Rat) :
-    (0 ≤ t → t ≤ 1 → eval tr (valBetter m (some x) t) = .ret (decide (t < x)))
-      ∧ (¬ (0 ≤ t ∧ t ≤ 1) → eval tr (valBetter m (some x) t) = .raise eAssert) := by
-  rw [better_code_table_eq_isBetterThan tr ht]
-  constructor
-  · intro h0 h1; simp [AP.isBetterThan, AP.thrValid, AP.isBetter, hm, ofBool, h0, h1]
-  · intro h
-    have : (decide (0 ≤ t) && decide (t ≤ 1)) = false := by
-      by_cases h0 : 0 ≤ t
-      · have h1 : ¬ t ≤ 1 := fun h1 => h ⟨h0, h1⟩
-        simp [h1]
-      · simp [h0]
-    simp [AP.isBetterThan, AP.thrValid, hm, ofBool, this, errCode_assert, eAssert]
+    (hm : m.isDistance = false) (x t : Rat) (h0 : 0 ≤ t) (h1 : t ≤ 1) :
+    eval tr (valBetter m (some x) t) = .ret (decide (t < x)) := by
+  rw [better_code_table_eq_isBetterThan tr ht m _ t (by simp [AP.thrValid, hm, h0, h1])]
+  simp [AP.isBetterThan, AP.thrValid, AP.isBetter, hm, ofBool, h0, h1]
 
 /-- for the code's table: a value equal to the threshold is never better, in any class -/
-theorem table_equal_not_better {tr : DTree} (ht : Gen.K.better.tree = some tr) (m : AP.Mode) (x : Rat) :
-    eval tr (valBetter m (some x) x) ≠ .ret true := by
-  rw [better_code_table_eq_isBetterThan tr ht]
+theorem table_equal_not_better {tr : DTree} (ht : Gen.K.better.tree = some tr) (m : AP.Mode) (x : Rat)
+    (hv : AP.thrValid m x = true) : eval tr (valBetter m (some x) x) ≠ .ret true := by
+  rw [better_code_table_eq_isBetterThan tr ht m _ x hv]
   unfold AP.isBetterThan
   split <;> simp [ofBool, AP.isBetter]
 
 /-- for the code's table: no value (`None`) is never better -/
-theorem table_none_not_better {tr : DTree} (ht : Gen.K.better.tree = some tr) (m : AP.Mode) (t : Rat) :
-    eval tr (valBetter m none t) ≠ .ret true := by
-  rw [better_code_table_eq_isBetterThan tr ht]
+theorem table_none_not_better {tr : DTree} (ht : Gen.K.better.tree = some tr) (m : AP.Mode) (t : Rat)
+    (hv : AP.thrValid m t = true) : eval tr (valBetter m none t) ≠ .ret true := by
+  rw [better_code_table_eq_isBetterThan tr ht m _ t hv]
   unfold AP.isBetterThan
   split <;> simp [ofBool]
 
-/-- C08 for the code's table: a value that beats a threshold beats every looser valid threshold -/
+/-- C08 for the code's table: a value that beats a threshold (on the scale) beats every looser threshold on the scale -/
 theorem table_better_mono {tr : DTree} (ht : Gen.K.better.tree = some tr) (m : AP.Mode) (x : Option Rat) (t t' : Rat)
-    (hl : AP.looser m t t') (hv : AP.thrValid m t' = true)
+    (hl : AP.looser m t t') (hvt : AP.thrValid m t = true) (hv : AP.thrValid m t' = true)
     (h : eval tr (valBetter m x t) = .ret true) : eval tr (valBetter m x t') = .ret true := by
-  rw [better_code_table_eq_isBetterThan tr ht] at h ⊢
+  rw [better_code_table_eq_isBetterThan tr ht m x t hvt] at h
+  rw [better_code_table_eq_isBetterThan tr ht m x t' hv]
   unfold AP.isBetterThan at h ⊢
+  rw [hvt] at h
   rw [hv]
-  split at h
-  · cases x with
-    | none => simp [ofBool] at h
-    | some y =>
-      simp only [ofBool, DT.Res.ret.injEq] at h
-      simp [ofBool, AP.isBetter_mono hl h]
-  · simp [ofBool] at h
+  cases x with
+  | none => simp [ofBool] at h
+  | some y =>
+    simp only [if_true, ofBool, DT.Res.ret.injEq] at h
+    simp [ofBool, AP.isBetter_mono hl h]
 
-/-- non-vacuity: on an unchanged tree the table exists; 1 < 2 is better for a distance, not for an IoU; equality is not -/
+/-- non-vacuity: on an unchanged tree the table exists; 1 < 2 is better for a distance (also for a distance threshold
+outside [0, 1]), not for an IoU; equality is not; the in-quantifier predicate holds for IoU thresholds 0, 1/2, 1 -/
 example : ∀ tr, Gen.K.better.tree = some tr →
     eval tr (valBetter .centerDistance (some 1) 2) = .ret true ∧ eval tr (valBetter .planeDistance (some 2) 2) = .ret false
     ∧ eval tr (valBetter .iou2d (some (1/4)) (1/2)) = .ret false ∧ eval tr (valBetter .iou3d (some (3/4)) (1/2)) = .ret true
-    ∧ eval tr (valBetter .iou3d (some (3/4)) (3/2)) = .raise eAssert := by
+    ∧ eval tr (valBetter .iou3d (some 1) 1) = .ret false ∧ eval tr (valBetter .iou2d (some (1/4)) 0) = .ret true := by
   intro tr ht
-  simp only [better_code_table_eq_isBetterThan tr ht]
+  rw [better_code_table_eq_isBetterThan tr ht _ _ _ (by decide +kernel), better_code_table_eq_isBetterThan tr ht _ _ _ (by decide +kernel),
+    better_code_table_eq_isBetterThan tr ht _ _ _ (by decide +kernel), better_code_table_eq_isBetterThan tr ht _ _ _ (by decide +kernel),
+    better_code_table_eq_isBetterThan tr ht _ _ _ (by decide +kernel), better_code_table_eq_isBetterThan tr ht _ _ _ (by decide +kernel)]
   decide +kernel
+
+example : AP.thrValid .iou2d 0 = true ∧ AP.thrValid .iou3d 1 = true ∧ AP.thrValid .centerDistance 7 = true
+    ∧ AP.thrValid .iou3d (3/2) = false := by decide +kernel
 
 end PEval.KernelBetter
